@@ -1175,6 +1175,60 @@ SUB_SERVER = (b"import sys, json\nimport sshuttle\n"
               b"    sys.stdout.flush()\n")
 
 
+class _SegWriter:
+    """Unbuffered socket writer that hands every write to the kernel in three segments a few
+    milliseconds apart: what an ssh channel or a slow link does to the upload."""
+
+    def __init__(self, f):
+        self._f = f
+
+    def write(self, b):
+        import time as _time
+        b = bytes(b)
+        n = len(b)
+        cuts = sorted(set([n // 3, (2 * n) // 3, n]))
+        pos = 0
+        for c in cuts:
+            if c > pos:
+                mv = memoryview(b)[pos:c]
+                while len(mv):
+                    k = self._f.write(mv)
+                    mv = mv[k if k is not None else len(mv):]
+                pos = c
+                if pos < n:
+                    _time.sleep(0.04)
+        return n
+
+    def __getattr__(self, k):
+        return getattr(self._f, k)
+
+
+class _SegSock:
+    def __init__(self, s):
+        self._s = s
+
+    def makefile(self, mode, buffering=0):
+        f = self._s.makefile(mode, buffering=buffering)
+        return _SegWriter(f) if 'w' in mode else f
+
+    def __getattr__(self, k):
+        return getattr(self._s, k)
+
+
+class _SegSocketModule:
+    """`socket` as ssh.connect sees it: socketpair() whose parent end writes in segments."""
+
+    def __init__(self, real):
+        self._real = real
+
+    def socketpair(self, *a, **kw):
+        s1, s2 = self._real.socketpair(*a, **kw)
+        return s1, _SegSock(s2)
+
+    def __getattr__(self, k):
+        return getattr(self._real, k)
+
+
 def subprocess_case(ctx, sub_seed, scratch, names, keys):
     import random as _random
     rng = _random.Random(sub_seed)        # the case is a function of this seed alone (replayable)
@@ -1209,6 +1263,8 @@ def subprocess_case(ctx, sub_seed, scratch, names, keys):
     fi = FakeImportlib(paths)
     old = ssh.importlib
     ssh.importlib = fi
+    old_sock = ssh.socket
+    ssh.socket = _SegSocketModule(old_sock)
     old_err = sys.stderr
     sys.stderr = io.StringIO()
     p = None
@@ -1229,6 +1285,7 @@ def subprocess_case(ctx, sub_seed, scratch, names, keys):
             out += b'<%s>' % type(e).__name__.encode()
     finally:
         ssh.importlib = old
+        ssh.socket = old_sock
         sys.stderr = old_err
         if p is not None and p.poll() is None:
             p.kill()
